@@ -49,6 +49,23 @@ PROPS["C16"] = dict(
          "oracle as above. A decoder whose stack or memory grows with the run does not panic, it kills the process (fatal "
          "error: stack overflow is not recoverable): the driver reports signature process-crash, and the case that was "
          "running is left as TestC16LongRuns-inflight-*.json in the replay directory. "
+         "Big copies (sixth case type, unit big_copies, BOTH tiers): a complete record whose body is 32..80 MiB - k*2^24 -1..+1 "
+         "bytes, k = 2..5, and lengths in between (quick: 2^25-1, 2^25, 2^25+1, 40 MiB+777, 3*2^24, 2^26+1, 5*2^24; thorough 15 "
+         "lengths) - with NON-ZERO, position-dependent content throughout (the k-th 8-byte word is (k+seed)*odd constant with the "
+         "low bit of every byte set: no range of the input equals a range at another offset, and memory that was not copied yet "
+         "- zero - equals nothing), minimal or over-long prefix, alone or followed by 3 bytes, built in place in one arena; decoded "
+         "by every function, under a scheduling regime that is part of the case: GOMAXPROCS(1) (the caller owns the only "
+         "processor), GOMAXPROCS(1) with 3 sibling goroutines that compute and yield all the time, the processors of the run "
+         "with two such siblings per processor (thorough also GOMAXPROCS(1)+16 siblings, GOMAXPROCS(2) with 0 / 4 siblings, default "
+         "without siblings); 2 (thorough 4) rounds. Oracle per call as above, but the results of the two newBuf=true decoders are "
+         "judged AS THEY ARE WHEN THE CALL RETURNS: read once, immediately, from the far end backwards in 1 MiB chunks that are "
+         "copied to a scratch buffer (a frozen observation) and compared with in[n-len:n]; a chunk that differs is searched at "
+         "every place where it could lie if the result were a copy of any range in[i:i+len] - signature copy-not-from-input when "
+         "it is nowhere (a correct copy is stable, so when and in which order it is read cannot matter). One result is alive at a "
+         "time (dropped and collected before the next call): a shard holds the input and one copy, about 180 MB, 2 shards "
+         "(thorough 3) run at once (big_copies_peak_resident_kB is the sum of the shards' peaks); the unit takes a few seconds, which is why it is in the "
+         "quick tier. Counted in big_record_newBuf_copies_compared_in_full; classes big_record_GOMAXPROCS_1, "
+         "big_record_busy_sibling_goroutines, big_record_body_whole_number_of_2^24_byte_blocks. "
          "First calls of a process (fifth case type, unit first_use): the test binary re-executes itself (child test "
          "TestC16FirstUseChild, case in VERIF_XBIN_FIRSTUSE_CASE, the driver's environment without the stats/replay "
          "variables) so that a concurrent case is THE VERY FIRST use of the library in a fresh process: for every Unmarshal "
@@ -68,6 +85,8 @@ PROPS["C16"] = dict(
                  "the first calls a process makes are calls like any other: a lazily initialised table / pool inside the library must be safe for concurrent first use",
                  "a []byte returned with newBuf=true belongs to the caller, who may write every byte of it up to its capacity (buffer-reuse histories)",
                  "an input of 64 MiB is an ordinary byte string: 'for every byte string each Unmarshal function returns without panicking' includes not exhausting the goroutine stack on it",
+                 "'the returned bytes are ... a copy of [a sub-range of the input]' is a statement about the value the call returns: it holds the moment the call has returned, for whoever reads the result first and on however many processors the program runs (big_copies reads the result once, immediately; it never waits and looks again)",
+                 "a record of 80 MiB is an ordinary byte string for newBuf=true as well (the process then holds the input and a copy)",
                  "the native fuzzing stage (thorough) uses a test binary built with -fuzz (coverage instrumentation) and is seeded with the hostile inputs"],
     units=[
         dict(name="exhaustive", run="^TestC16Exhaustive$", shards=(4, 16), timeout=(200, 600)),
@@ -78,6 +97,7 @@ PROPS["C16"] = dict(
         dict(name="concurrent", run="^TestC16RapidConcurrent$", checks=(4000, 20000), shards=(2, 8), timeout=(200, 900),
              race=(False, True)),
         dict(name="long_runs", run="^TestC16LongRuns$", shards=(4, 8), timeout=(200, 600)),
+        dict(name="big_copies", run="^TestC16BigCopies$", shards=(2, 3), timeout=(200, 600)),
         dict(name="first_use", run="^TestC16FirstUse$", shards=(2, 8), timeout=(200, 900)),
         dict(name="first_use_race", run="^TestC16FirstUse$", enabled=(False, True), shards=8, timeout=(200, 900), race=(False, True),
              env={"VERIF_XBIN_FIRSTUSE_TRIES": "1"}),
@@ -93,6 +113,7 @@ LEVEL_TEXT["C16"] = (
     "extreme group bytes (length prefixes made of all-ones / all-zero groups, including 2^63-1 and 2^64-1), a "
     "grammar of hostile length prefixes with short bodies and with records of up to 256 KiB (enumerated: up to 4 MiB, thorough "
     "8 MiB) around every power of two and around the small multiples of 4 KiB, 64 KiB and 1 MiB, mutated valid encodings, the same inputs decoded by up to 8 goroutines at once, runs of 1 to 64 MiB of continuation "
-    "bytes, small valid inputs as the very first concurrent calls of a few hundred fresh processes and, in the thorough tier, "
+    "bytes, records of 32 to 80 MiB of non-zero content whose newBuf=true copies are compared in full the moment the call returns (on one "
+    "processor, next to busy goroutines, on all processors), small valid inputs as the very first concurrent calls of a few hundred fresh processes and, in the thorough tier, "
     "native go fuzzing from the hostile seeds. No counterexample among the inputs counted in the evidence; not a proof for all byte strings."
 )
